@@ -516,3 +516,129 @@ def check_model_selection_eval(chk) -> bool:
         chk.expect(not cases["absent"], "model-selection", fi.where, "evaluated: a requested model that is absent falls back to the first model of the file", "a requested model that is absent does not fall back to the first model: " + "; ".join(cases["absent"][:2]), K(fi, "select-absent"), found=cases["absent"][:6])
         chk.expect(not cases["pass"] and not cases["reader"], "model-selection", fi.where, f"evaluated on {n} (file, request) cases: the selected atoms and the reader's side tables are handed to group_atoms unchanged; mmCIF input is read by parse_cif, PDB input by parse_pdb", "; ".join((cases["reader"] + cases["pass"])[:2]), K(fi, "select-pass"), found=(cases["reader"] + cases["pass"])[:6])
     return True
+
+
+# --------------------------------------------------------------------------------------------------------------------
+# format detection (round 4): which reader a file is handed to
+# --------------------------------------------------------------------------------------------------------------------
+class TextFile:
+    """A text file stub with a position: iteration, readline(s) and read continue where the last read stopped, seek moves."""
+
+    _folder_stub = True
+
+    def __init__(self, lines: List[str]):
+        self.lines, self.pos = list(lines), 0
+
+    def seek(self, n=0, *a):
+        self.pos = 0 if n == 0 else len(self.lines)
+        return 0
+
+    def tell(self):
+        return self.pos
+
+    def readline(self):
+        if self.pos >= len(self.lines):
+            return ""
+        self.pos += 1
+        return self.lines[self.pos - 1]
+
+    def readlines(self):
+        out, self.pos = self.lines[self.pos :], len(self.lines)
+        return out
+
+    def read(self):
+        return "".join(self.readlines())
+
+    def __iter__(self):
+        return self
+
+    def __next__(self):
+        l = self.readline()
+        if l == "":
+            raise StopIteration
+        return l
+
+    def close(self):
+        return None
+
+
+_CIF_ATOM_SITE = [
+    "loop_\n", "_atom_site.group_PDB\n", "_atom_site.id\n", "_atom_site.type_symbol\n", "_atom_site.label_atom_id\n", "_atom_site.label_comp_id\n", "_atom_site.label_asym_id\n",
+    "_atom_site.label_seq_id\n", "_atom_site.Cartn_x\n", "_atom_site.Cartn_y\n", "_atom_site.Cartn_z\n", "_atom_site.pdbx_PDB_model_num\n",
+    "ATOM 1 P P G A 1 1.000 2.000 3.000 1\n", "HETATM 2 MG MG MG B . 4.000 5.000 6.000 1\n", "#\n",
+]
+
+
+def format_cases(sp) -> List[Tuple[str, List[str], bool]]:
+    """(description, lines, is mmCIF).  An mmCIF file is a sequence of categories; everything before the atom_site loop is arbitrary:
+    item names of other categories, loops, and free text (semicolon-delimited multi-line values) whose lines may start with any word -
+    one case per class of PDB record name, since those are the words a format sniffer would look for."""
+    recs = [(tag, line.rstrip() + "\n") for tag, line, _, _ in record_classes(sp) if line.strip()]
+    cases: List[Tuple[str, List[str], bool]] = [
+        ("a coordinate-only mmCIF file (data block, then the atom_site loop)", ["data_demo\n", "#\n"] + _CIF_ATOM_SITE, True),
+        ("an mmCIF file whose atom_site loop starts with another item than group_PDB", ["data_demo\n", "loop_\n", "_atom_site.id\n", "_atom_site.group_PDB\n", "1 ATOM\n", "#\n"], True),
+        ("an mmCIF file with 40 lines of other categories before atom_site", ["data_demo\n"] + [f"_entity.item_{k} value\n" for k in range(40)] + _CIF_ATOM_SITE, True),
+    ]
+    for tag, line in recs:
+        cases.append((f"an mmCIF file with a free-text value before atom_site, one line of which starts like a {tag} record", ["data_demo\n", "_refine.details\n", ";\n", line, ";\n", "#\n"] + _CIF_ATOM_SITE, True))
+    cases += [
+        ("a PDB file (HEADER, REMARK, atom records, END)", [l for _, l in recs], False),
+        ("a PDB file of atom records only", [l for t, l in recs if t in ("ATOM", "HETATM")], False),
+        ("a PDB file that mentions _atom_site inside a REMARK", ["REMARK   3  converted from the _atom_site category\n"] + [l for t, l in recs if t in ("ATOM", "HETATM", "END")], False),
+        ("an empty file", [], False),
+    ]
+    return cases
+
+
+def check_format_detection_eval(chk) -> bool:
+    """`is_cif` interpreted on one file per class: an mmCIF file is recognised whatever precedes its atom_site loop, a PDB file is not."""
+    repo = chk.repo
+    if not repo.has_func(P, "is_cif"):
+        chk.error("format-detection", f"src/rnapolis/{P}.py", "the format test is_cif(file) was not found")
+        return True
+    fi = repo.func(P, "is_cif")
+    chk.note_function(fi)
+    sp = spec("pdb_columns.json")
+    env: Dict[str, Any] = {}
+    env.update(module_callables(repo, P, outer=env))
+    bad_cif: List[str] = []
+    bad_pdb: List[str] = []
+    n = 0
+    try:
+        call = func_callable(repo, P, fi.node, env)
+        for tag, lines, want in format_cases(sp):
+            n += 1
+            f = TextFile(lines)
+            f.pos = len(lines) // 2  # a handle that has been read before: detection has to rewind it itself
+            try:
+                got = call(f)
+            except Raised as ex:
+                (bad_cif if want else bad_pdb).append(f"{tag}: raises {ex.name}")
+                continue
+            except Unknown:
+                raise
+            except Exception as ex:
+                (bad_cif if want else bad_pdb).append(f"{tag}: raises {type(ex).__name__}")
+                continue
+            if bool(got) != want:
+                (bad_cif if want else bad_pdb).append(f"{tag} is taken for {'mmCIF' if got else 'PDB'}")
+    except Unknown as ex:
+        ref = repo.reference.get(P) if hasattr(repo, "reference") else None
+        same = ref is not None and "is_cif" in ref.funcs and norm(ref.funcs["is_cif"].node) == norm(fi.node)
+        if same:
+            chk.ok("format-detection", fi.where, "is_cif is the pinned scan of all lines for an `_atom_site` item (not evaluable here)")
+        else:
+            chk.error("format-detection", fi.where, f"is_cif is not evaluable on representative files ({str(ex)[:80]}) and not in its pinned form")
+        return True
+    with evidence(chk, "format-detection"):
+        chk.expect(
+            not bad_cif,
+            "format-detection",
+            fi.where,
+            f"evaluated on {n} files: an mmCIF file is recognised by its atom_site items whatever text precedes them (other categories, free-text values whose lines start like PDB records)",
+            "an mmCIF file is not recognised as mmCIF: " + "; ".join(bad_cif[:2]) + " - the decision depends on text before the atom_site loop, the file is then read by the PDB parser",
+            K(fi, "detect-cif"),
+            found=bad_cif[:6],
+        )
+        chk.expect(not bad_pdb, "format-detection", fi.where, "evaluated: a PDB file (also one mentioning _atom_site inside a REMARK) and an empty file are not mmCIF", "a PDB file is not recognised as PDB: " + "; ".join(bad_pdb[:2]), K(fi, "detect-pdb"), found=bad_pdb[:6])
+    return True
